@@ -506,13 +506,15 @@ def corrupt(cx, win, exe, inputs, cfg, strides, parse_max=None, aw_cfg=None):
     for i, kind, pos, val, eq, msg in evs:
         enc = res["MUT"][i][3] if i in res["MUT"] else res["MUTENC"].get(i)
         m = mutated(enc, kind, pos, val) if enc is not None else None
-        if (m is None or (lim is not None and len(m) > lim) or nreal >= 2000 or nbytes + len(m) > 400000
+        big = len(inputs[i][1]) > 20000      # big input: TLC is given no copy of it and reports the length of Expand instead
+        wt = len(m or b"") + (len(inputs[i][1]) // 16 if big else len(inputs[i][1]))
+        if (m is None or (lim is not None and len(m) > lim) or nreal >= 2000 or nbytes + wt > 1000000
                 or (win == "prod" and eq is None)):   # production window: sanitizer reports are keyed by their text
             cases.append(None)   # not classified by TLC (too long / too many): reported under a key that is never "known"
         else:
-            cases.append({"id": len(cases), "src": list(m), "inp": list(inputs[i][1])})
+            cases.append({"id": len(cases), "src": list(m), "inp": [] if big else list(inputs[i][1]), "n": len(inputs[i][1]), "big": big})
             nreal += 1
-            nbytes += len(m)
+            nbytes += wt
         meta.append((i, kind, pos, val, eq, msg))
     real = [c for c in cases if c is not None]
     r, got = tlc_file(cfg, real, "%s classification of %d dying/accepted corruptions" % (cfg, len(real)))
@@ -522,11 +524,11 @@ def corrupt(cx, win, exe, inputs, cfg, strides, parse_max=None, aw_cfg=None):
     if aw_cfg and real:
         r, got_aw = tlc_file(aw_cfg, real, "%s classification (machine as written)" % aw_cfg)
         cx.tlc(r)
-    benign = 0
+    benign = unarb = 0
     for c, (i, kind, pos, val, eq, msg) in zip(cases, meta):
         g = got[c["id"]] if c is not None else None
         ga = got_aw.get(c["id"]) if c is not None else None
-        if g is not None and eq and g["abs"] == "hash" and g["dataeq"] and g["trl"] == c["src"][-8:]:
+        if g is not None and eq and g["abs"] == "hash" and (g["dlen"] == c["n"] if c["big"] else g["dataeq"]) and g["trl"] == c["src"][-8:]:
             benign += 1
             continue
         if ga is not None:
@@ -536,8 +538,14 @@ def corrupt(cx, win, exe, inputs, cfg, strides, parse_max=None, aw_cfg=None):
             k = san_key(msg)
         elif g is not None:
             k = KEY_WHY.get(g["why"], "reduce:accepted_damaged_stream:" + (g["why"] or "meaning"))
+        elif eq:
+            # accepted with exactly the original output, but too long / too many for the TLC parse: a valid alias or one of the
+            # classes already exhibited on short encodings; counted, not reported (every mutation kind is also applied to
+            # thousands of short encodings that are classified)
+            unarb += 1
+            continue
         else:
-            k = "reduce:accepted_damaged_stream:unclassified"
+            k = "reduce:accepted_damaged_stream:output_differs"
         per_key[k] = per_key.get(k, 0) + 1
         if per_key[k] > 40:
             continue
@@ -549,6 +557,7 @@ def corrupt(cx, win, exe, inputs, cfg, strides, parse_max=None, aw_cfg=None):
     ck.add("corruptions_with_sanitizer_report_%s" % win, len(res["MCRASH"]))
     ck.add("inputs_abandoned_after_16_sanitizer_reports", len(res["MCAPPED"]))
     ck.add("corruptions_accepted_but_valid_alias_%s" % win, benign)
+    ck.add("corruptions_accepted_same_output_not_arbitrated_%s" % win, unarb)
     vlib.log("  %s corruption: %d inputs, %d mutated streams decoded, %d accepted (%d are valid aliases per TLC), %d sanitizer reports"
              % (win, len(inputs), nmut, nacc, benign, len(res["MCRASH"])))
 
